@@ -16,8 +16,27 @@ pub const FAMS: [&str; 10] = ["byte-at-position", "class-pattern", "two-bytes", 
 const BG: [&[u8]; 3] = [b"0123456789", b"AZ $%*+-./:K7", b"az,!\x00\x7f\x80\xff@[`{"];
 const REPS: [[u8; 2]; 3] = [[b'0', b'9'], [b'A', b':'], [b'a', 0xE9]];
 
+/// The mode decision may not depend on which OTHER options are given: version pinned or not, level given or not, mask
+/// forced or not rotate through all eight combinations (a pinned version is one that holds the payload even as bytes at
+/// level H, so every classification has a symbol).
 fn explicit(fam: &'static str, payload: Vec<u8>, k: u64, ctx: &Ctx) -> Job {
-    Job { fam, class: tables::classify(&payload), len: payload.len(), payload: Some(payload), seed: mix(ctx.seed, k), level: Some((k % 4) as usize), mask: Some((k % 8) as usize), ..Default::default() }
+    let combo = (k % 8) as usize ^ ((k / 8) % 8) as usize;
+    let version = if combo & 1 != 0 {
+        (1..=40usize).find(|&v| ctx.caps.cap(v, tables::H, 2) >= payload.len()).map(|v| (v + (k / 64 % 3) as usize).min(40))
+    } else {
+        None
+    };
+    Job {
+        fam,
+        class: tables::classify(&payload),
+        len: payload.len(),
+        payload: Some(payload),
+        seed: mix(ctx.seed, k),
+        level: if combo & 2 != 0 { Some((k % 4) as usize) } else { None },
+        mask: if combo & 4 != 0 { Some((k % 8) as usize) } else { None },
+        version,
+        ..Default::default()
+    }
 }
 
 pub fn jobs(ctx: &Ctx) -> Vec<Job> {
@@ -307,7 +326,7 @@ pub fn run(ctx: &Ctx) -> Report {
     let st = pool::run(&jobs, ctx.remaining(), |st, job, _| observe(ctx, st, job));
     let mut rep = Report::new(
         st,
-        "jobs = all 256 byte values at every position of strings of length 1..8 over digit / alphanumeric / other backgrounds (27,648), all 3^L class patterns for L<=8 with two representative characters per class (19,682), all 256^2 two-byte strings (65,536), in the thorough tier ALL 256^3 three-byte strings (16,777,216), random strings of length <=1200 with one arbitrary byte planted at a random position, the dictionary prefix sweep, token strings, and edit sessions (a digits+alphanumerics+bytes text deleted from the end and typed back character by character, then edited in the middle, every intermediate text built on the same thread); every build uses automatic mode; observed: QRCode.mode == oracle class (45-character set spelled out independently), the mode indicator decoded from the symbol, and the reference decode equals the input byte for byte; distinct key = payload hash; non-trivial = every distinct string",
+        "every job rotates through the eight combinations of {version pinned, level given, mask forced} (the decision may depend on none of them); jobs = all 256 byte values at every position of strings of length 1..8 over digit / alphanumeric / other backgrounds (27,648), all 3^L class patterns for L<=8 with two representative characters per class (19,682), all 256^2 two-byte strings (65,536), in the thorough tier ALL 256^3 three-byte strings (16,777,216), random strings of length <=1200 with one arbitrary byte planted at a random position, the dictionary prefix sweep, token strings, and edit sessions (a digits+alphanumerics+bytes text deleted from the end and typed back character by character, then edited in the middle, every intermediate text built on the same thread); every build uses automatic mode; observed: QRCode.mode == oracle class (45-character set spelled out independently), the mode indicator decoded from the symbol, and the reference decode equals the input byte for byte; distinct key = payload hash; non-trivial = every distinct string",
     );
     rep.exhaustive = Some(true);
     rep.expected_sets = vec![("classes", 3), ("byte_values_seen", 256)];
